@@ -20,7 +20,7 @@ use serde::ser::{Serialize, Serializer};
 
 use crate::fileinfo::FileInfo;
 use crate::util::{capitalize, error_exit, format_date, format_datetime};
-use crate::util::{parse_filesize, parse_datetime, str_to_bool};
+use crate::util::{parse_filesize, parse_filesize_exact, parse_datetime, str_to_bool};
 
 #[derive(Clone, Debug)]
 pub enum VariantType {
@@ -189,10 +189,8 @@ impl Variant {
                 let float_value = self.string_value.parse::<f64>();
                 match float_value {
                     Ok(f) => f,
-                    _ => match parse_filesize(&self.string_value) {
-                        Some(size) => size as f64,
-                        _ => 0.0,
-                    },
+                    // the number a size denotes, not cut to whole bytes (`0.3k` is 307.2, `-1k` is -1024)
+                    _ => parse_filesize_exact(&self.string_value).unwrap_or(0.0),
                 }
             }
         }
